@@ -29,7 +29,8 @@ def _clauses(xs, default_props):
             out.append(Clause(lab, text, props, x[3] if len(x) > 3 else None))
     for c in out:
         if "NodeInit" in c.text:
-            c.props = set(c.props) | {"NI"}
+            # what a freshly constructed cell looks like matters to C06 (zero pulls, infinite index) and C07 (sentinel reward)
+            c.props = set(c.props) | {"NI", "C06", "C07"}
     return out
 
 
@@ -63,6 +64,7 @@ class Contract:
         self.note = kw.get("note", "")
         self.env = dict(kw.get("env", {}))
         self.nla = kw.get("nla", "native")                # "uf": products/quotients of two symbolic reals are uninterpreted (sound abstraction)
+        self.anyargs = kw.get("anyargs", False)
         self.reveal = list(kw.get("reveal", []))
         self.defines = kw.get("defines")                  # name of the spec function this pure function is the definition of
         self.axioms = list(kw.get("axioms", []))          # opt-in axiom groups, e.g. "rpow-arith"
